@@ -49,14 +49,17 @@ CHECKS = {
             "The real writer process is killed (strace inject SIGKILL) on entry to every k-th file-system call of the "
             "crashing session, plus torn prefixes of every write; the surviving directory is audited (metadata parse, "
             "reachable shards match digests) and iterated by a fresh reader: earlier sessions intact, only whole "
-            "examples that were written.",
+            "examples that were written. After every third crash state a normal 'recovery' session is run into the "
+            "crashed dataset (committed data must survive it), and live cases run a slow writer while a reader keeps "
+            "opening and iterating the dataset.",
             "Process crash with the OS staying up (no power loss); crash points = syscall boundaries seen by strace.",
             "crash-point enumeration via strace fault injection + offline auditor", "DESIGN.md §3 C06"),
     "C07": ("fault_enumeration",
             "Datasets with a deleted/emptied/truncated/garbage shard are iterated through every interface; outcome must "
             "be an exception: 'normal end with the shard's examples missing' is silent truncation, and a blocked process "
-            "is diagnosed by the quiescence oracle (thread states, CPU, context switches, stacks) rather than a "
-            "deadline. The Rust extension is rebuilt from rust/src.",
+            "is diagnosed by the quiescence oracle (thread states, CPU, I/O, context switches, stacks) rather than a "
+            "deadline; the lazy pool is additionally driven with failing (also late/slow) reads under the controlled "
+            "scheduler. The Rust extension is rebuilt from rust/src.",
             "Premise per case: the independent single-shard decoder rejects the damaged file.",
             "fault injection on shard files + quiescence oracle for hangs", "DESIGN.md §3 C07"),
     "C08": ("exploration",
@@ -92,8 +95,10 @@ CHECKS = {
             "differential runtime oracle: interface output vs contents of the selected shard files", "DESIGN.md §3 C12"),
     "C13": ("exploration",
             "Controlled scheduler driving the real LazyPool at queue-operation granularity (random, sticky, PCT, "
-            "preemption-bounded DFS for T<=2,n<=3): multiset, no deadlock state, workers terminate after the context, "
-            "pool reusable; plus uncontrolled real-thread stress with the quiescence oracle.",
+            "preemption-bounded DFS for T<=2,n<=3) with a virtual clock (timed waits, late-firing timers, pausing "
+            "consumers, slow calls): multiset, no deadlock state, workers terminate after the context, pool reusable, "
+            "failures of Exception/BaseException/SystemExit type; plus uncontrolled real-thread stress with the "
+            "quiescence oracle.",
             "Shims cover queue.Queue/time.sleep/Thread.start; other primitives fall back to the stress mode.",
             "systematic schedule exploration (controlled scheduler) of the real code", "DESIGN.md §3 C13"),
     "C14": ("exploration",
